@@ -219,7 +219,7 @@ func rule134(r *core.Run, fn *ssa.Function) {
 				}
 				gs := r.P.SliceOf(g.If.Cond, core.SliceOpts{Depth: -1})
 				cd := core.CondOf(g.If.Cond)
-				if cd.Op == token.EQL && g.Branch != cd.Neg && gs.HasPrefix("call:invoke:gofakes3.VersionItem.GetVersionID") && gs.Has("const:") {
+				if eq, ok := g.Equality(); ok && eq && gs.HasPrefix("call:invoke:gofakes3.VersionItem.GetVersionID") && gs.Has("const:") {
 					okGuard = true
 					continue
 				}
